@@ -75,6 +75,7 @@ namespace {
          if (name == "size" and std::atol(vb.c_str()) > std::atol(va.c_str())) continue;
          if (name == "try_block" and va == "F" and vb == "T") continue;
          if (name == "[size]") continue;          // Product/Sum probe one past the end
+         if (name[0] == '[' and va == "-") continue;   // a name (and type) that selected nothing before the step now selects the new member
          return name + " changed: " + va + " -> " + vb;
       }
       return "";
@@ -197,7 +198,7 @@ namespace {
          SB = lex.make_structured_binding();
          tower = &lex.int_type();
          add_node("R", *R, false); add_node("R.scope", static_cast<const ipr::Region&>(*R).bindings(), false);
-         add_node("E", *E, false); add_node("C", *C, false); add_node("M", *M, false); add_node("M.parameters", static_cast<const ipr::Mapping&>(*M).parameters(), false);
+         add_node("E", *E, false); add_node("C", *C, false); add_node("M", *M, false); add_node("M.parameters", static_cast<const ipr::Mapping&>(*M).parameters(), false); add_node("M.scope", static_cast<const ipr::Mapping&>(*M).parameters().region().bindings(), false);
          add_node("B", *B, false); add_node("PR", *PR, false); add_node("CL", *CL, false); add_node("U", *U, false); add_node("XL", *XL, false); add_node("SB", *SB, false);
          ipr::impl::Module* mod = module.get();
          add_custom("MODULE", static_cast<const ipr::Module*>(mod), [mod, this] {
@@ -280,7 +281,7 @@ namespace {
          case Symbol: { auto& s = lex.get_symbol(lex.get_identifier(u8"sym"), counter % 2 ? lex.int_type() : counter % 4 ? lex.char_type() : lex.double_type()); add_node("sym" + tag, s, false); break; }
          case Label: { auto& s = lex.get_label(lex.get_identifier(counter % 3 ? u8"sym" : u8"other")); add_node("label" + tag, s, false); break; }
          case Enumerator: { auto* m = E->add_member(lex.get_identifier(word(u8"e"))); must_be_fresh(*m, op_name[op]); model_enum.push_back(m); add_node("enumerator" + tag, *m, true); dirty = { "E" }; break; }
-         case Parameter: { auto* p = M->param(lex.get_identifier(word(u8"p")), lex.int_type()); must_be_fresh(*p, op_name[op]); model_param.push_back(p); add_node("param" + tag, *p, true); dirty = { "M", "M.parameters" }; break; }
+         case Parameter: { auto* p = M->param(model_param.size() % 3 == 1 ? static_cast<const ipr::Name&>(*ctx.nm[0]) : static_cast<const ipr::Name&>(lex.get_identifier(word(u8"p"))), lex.int_type()); must_be_fresh(*p, op_name[op]); model_param.push_back(p); add_node("param" + tag, *p, true); dirty = { "M", "M.parameters", "M.scope" }; break; }
          case Base: { auto* b = C->declare_base(counter % 2 ? lex.int_type() : lex.char_type()); must_be_fresh(*b, op_name[op]); model_base.push_back(b); add_node("base" + tag, *b, true); dirty = { "C" }; break; }
          case Handler: {
             auto* h = B->new_handler(lex.get_identifier(word(u8"h")), lex.int_type());
